@@ -776,6 +776,38 @@ fn t_bind_enabled() {
     core::mem::forget((rb, w));
 }
 
+/// Bind whose flow id equals the id of one of the endpoint's OWN slots (a pending bind request of
+/// its own: the crossing-requests case; ids are chosen by each requester independently, and an
+/// incoming Bind uses no table slot, so the collision is legal): the application is still shown
+/// exactly that request, nothing is answered on its behalf, and the own pending request is
+/// untouched ("requests are answered independently of one another")
+#[cfg_attr(kani, kani::proof)]
+#[cfg_attr(kani, kani::stub(catch_unwind, call_through))]
+#[cfg_attr(kani, kani::unwind(6))]
+#[cfg_attr(verif_replay, test)]
+fn t_bind_enabled_id_of_own_request() {
+    let mut w = world(4, 2, true, 1);
+    let mut rb = bystander_bind(&w);
+    let port: u16 = kani::any();
+    let r = poll_once(w.task.process_frame(bind_frame(B, BindType::Stream, b"ho", port), false));
+    assert!(matches!(r, Poll::Ready(Ok(()))), "C15.bind.crossing.ok");
+    core::mem::forget(r);
+    assert!(out_empty(&mut w.tx_msg_rx), "C15.bind.crossing.no_auto_answer: a Bind under the id of an own pending request is not rejected by the endpoint");
+    let brx = w.bnd_rx.as_mut().unwrap();
+    assert!(brx.len() == 1, "C15.bind.crossing.delivered: the request reaches the application");
+    let got = brx.try_recv();
+    match &got {
+        Ok(req) => {
+            assert!(req.flow_id() == B && req.port() == port, "C15.bind.crossing.fields");
+            assert!(req.host().len() == 2 && req.host()[0] == b'h' && req.host()[1] == b'o', "C15.bind.crossing.host");
+        }
+        Err(_) => assert!(false, "C15.bind.crossing.delivered2"),
+    }
+    core::mem::forget(got);
+    assert!(table_len(&w) == 1 && bystander_bind_untouched(&w, &mut rb), "C15.bind.crossing.frame: the own pending request is untouched");
+    core::mem::forget((rb, w));
+}
+
 /// during teardown (ignore_bind) a Bind is dropped silently
 #[cfg_attr(kani, kani::proof)]
 #[cfg_attr(kani, kani::stub(catch_unwind, call_through))]
